@@ -113,6 +113,16 @@ Theorem C02_fsum_exact : forall xs r absolute E, Forall (in_window E 1000000) xs
   rv (mpf_sum xs 0 r absolute) = rsum absolute xs.
 Proof. exact mpf_sum_exact. Qed.
 
+(* mixed mpf / Python-int operands (integers of any size) *)
+From MP Require Import Proofs.IntOps.
+Theorem C02_mul_int_round : forall s n prec r, fincanon s -> 0 < prec ->
+  rv (python_mpf_mul_int s n prec r) = RND r prec (rv s * IZR n).
+Proof. exact mpf_mul_int_round. Qed.
+Theorem C02_rdiv_int_round : forall n t prec r, regular t -> 0 < prec ->
+  exists y, mpf_rdiv_int n t prec r = Ok y /\ rv y = RND r prec (IZR n / rv t).
+Proof. exact mpf_rdiv_int_round. Qed.
+Print Assumptions C02_rdiv_int_round.
+
 (* non-vacuity: 255 rounded to 4 bits to nearest is 256 (carry out of the top bit) *)
 Example C02_witness : normalize 0 255 0 (bitcount 255) 4 RN = Mpf 0 1 8 1.
 Proof. reflexivity. Qed.
